@@ -86,7 +86,11 @@ def build_harness(name, src, flags=(), extra_deps=()):
     h.update(' '.join(flags).encode())
     h.update(' '.join(CXX).encode())
     key = h.hexdigest()[:20]
-    out = os.path.join(BUILD, 'bin', f'{name}-{key}')
+    # one cache directory per state of /repo/include (so that a scratch tree or a temporarily
+    # patched /repo does not evict the binaries of the unchanged tree); oldest directories are pruned
+    rdir = os.path.join(BUILD, 'bin', 'r-' + repo_include_hash()[:12])
+    os.makedirs(rdir, exist_ok=True)
+    out = os.path.join(rdir, f'{name}-{key}')
     if os.path.exists(out):
         return out
     lock = open(os.path.join(BUILD, 'bin', f'.{name}.lock'), 'w')
@@ -94,13 +98,21 @@ def build_harness(name, src, flags=(), extra_deps=()):
     try:
         if os.path.exists(out):
             return out
-        # drop stale binaries of the same name
-        for f in os.listdir(os.path.join(BUILD, 'bin')):
+        # drop stale binaries of the same name in this directory, and old directories
+        for f in os.listdir(rdir):
             if f.startswith(name + '-'):
                 try:
-                    os.remove(os.path.join(BUILD, 'bin', f))
+                    os.remove(os.path.join(rdir, f))
                 except OSError:
                     pass
+        try:
+            dirs = sorted((d for d in os.listdir(os.path.join(BUILD, 'bin')) if d.startswith('r-')),
+                          key=lambda d: os.path.getmtime(os.path.join(BUILD, 'bin', d)))
+            for d in dirs[:-4]:
+                import shutil
+                shutil.rmtree(os.path.join(BUILD, 'bin', d), ignore_errors=True)
+        except OSError:
+            pass
         tmp = out + '.tmp'
         cmd = CXX + list(flags) + [srcp, '-o', tmp]
         t0 = time.time()
